@@ -65,6 +65,12 @@ func (bc *BaseContract) TxSwapBegin(
 		return "", errors.New(swap.ErrIncorrectSwap)
 	}
 
+	// the id is the transaction id, which the caller chooses on the executeTasks route:
+	// an open swap must never be replaced (its escrow would be lost)
+	if _, err = swap.Load(bc.GetStub(), bc.GetStub().GetTxID()); err == nil {
+		return "", errors.New("swap already exists")
+	}
+
 	if err = swap.Save(bc.GetStub(), bc.GetStub().GetTxID(), &s); err != nil {
 		return "", err
 	}
